@@ -18,9 +18,9 @@ def check(pid):
     return deco
 
 
-def _drive(run, family, extra=(), profile="dev", sub=None, timeout=900):
+def _drive(run, family, extra=(), profile="dev", sub=None, timeout=900, verb="drive"):
     out = os.path.join(run.workdir, sub or family)
-    info = core.drive(family, out, run.tier, run.seed, extra=extra, profile=profile, timeout=timeout)
+    info = core.drive(family, out, run.tier, run.seed, extra=extra, profile=profile, timeout=timeout, verb=verb)
     return out, info
 
 
@@ -61,6 +61,78 @@ def c20(run):
     run.validate("charsets", os.path.join(out, "charsets.ndjson"), "Trace_Chars", "Trace_Chars.cfg", ["C20:"],
                  workers=workers(run), nontrivial=_c20_nontrivial, need=need)
     run.exhaustive = False
+
+
+# ------------------------------------------------------------------------------------ C11 / C12
+
+PART_ASSUME = ["region lemma for partitions: classes are unions of regions delimited by interval end points, so one "
+               "character per region decides the set-theoretic obligations (full-alphabet scans of class_of_char on a "
+               "sample remove the assumption for that query)",
+               "small scope: every partition of 0..6 (all subsets of pairwise disjoint intervals) is built by every "
+               "route under several block embeddings into 0..0x2FFFF"]
+
+
+def _partition_traces(run, pair_stride):
+    scen = os.path.join(run.workdir, "part_scen.ndjson")
+    run.generate("MC_PartGen", "MC_PartGen.cfg", scen,
+                 note="every behaviour of the PartitionObj state machine over 0..6: New/FromSet + enabled Push steps, "
+                      "and TryFromList on every list of <= 3 intervals in every order")
+    out, info = _drive(run, "partitions", verb="replay", sub="replay",
+                       extra=["--scen", scen, "--pair-stride", str(pair_stride)])
+    out2, info2 = _drive(run, "partitions", sub="random")
+    run.extra["driver"] = [info, info2]
+    return out, out2
+
+
+@check("C11")
+def c11(run):
+    run.rule = ("behaviours = TLC-generated: every partition of 0..6 built by push and by from_set+push (projection "
+                "compared after every action) and every try_from_list call on <= 3 intervals in every order, "
+                "replayed under block embeddings with class_of_char on first/last/interior of every block and "
+                "interval_cover/class_of_set/good_char_set on every block-aligned query set plus sets starting or "
+                "ending inside a block; plus seeded random partitions of <= 12 real intervals with queries on all "
+                "end point +-1 pairs and full-alphabet scans; non-trivial = distinct record with >= 2 intervals")
+    run.assumptions = list(PART_ASSUME)
+    out, out2 = _partition_traces(run, 1000000)
+    nt = lambda r: len(r.get("ivs", [])) >= 2
+    def cov(kind):
+        return lambda r: any(q["cover"] == kind for q in r.get("sets", []))
+    need = {"route_push": lambda r: r.get("route") == "push", "route_from_set": lambda r: r.get("route") == "from_set",
+            "route_list_ok": lambda r: r.get("route") == "list" and r.get("res") == "ok",
+            "route_list_err": lambda r: r.get("route") == "list" and r.get("res", "").startswith("err"),
+            "cover_in": cov("in"), "cover_disjoint": cov("disjoint"), "cover_overlaps": cov("overlaps"),
+            "empty_complement": lambda r: any(s["empty_comp"] for s in r.get("steps", [])),
+            "adjacent_intervals": lambda r: any(a[1] + 1 == b[0] for a, b in zip(r.get("ivs", []), r.get("ivs", [])[1:]))}
+    w = workers(run)
+    run.validate("part_objects", os.path.join(out, "part_objects.ndjson"), "Trace_Partitions", "Trace_Partitions.cfg",
+                 ["C11:", "partition object"], workers=w, nontrivial=nt, need=need, timeout=1500)
+    run.validate("part_random", os.path.join(out2, "part_random.ndjson"), "Trace_Partitions", "Trace_Partitions.cfg",
+                 ["C11:", "partition object"], workers=w, nontrivial=nt, timeout=1500)
+    run.validate("part_scans", os.path.join(out2, "part_scans.ndjson"), "Trace_Partitions", "Trace_Partitions.cfg",
+                 ["C11:"], workers=w, nontrivial=nt, timeout=1500)
+    run.exhaustive = True
+    run.extra["exhaustive_scope"] = "all behaviours of PartitionObj over 0..6 with lists <= 3 (TLC-enumerated), block-embedded"
+
+
+@check("C12")
+def c12(run):
+    run.rule = ("cases = merge_partitions on ordered pairs of the TLC-generated partitions of 0..6 (quick: every 40th "
+                "pair; thorough: all 372100) under block embeddings, merge_partition_list on all permutations of "
+                "triples from a reduced set, [] and the neutral element, plus seeded random real partitions; "
+                "obligations (a)-(e) of DESIGN 5 C12 and the literal reading (f) with structural identification of "
+                "the representation finding; non-trivial = distinct record whose operands are both non-empty")
+    run.assumptions = list(PART_ASSUME)
+    out, out2 = _partition_traces(run, 1 if run.tier == "thorough" else 40)
+    nt = lambda r: (r.get("op") == "merge" and r["p1"] and r["p2"]) or (r.get("op") == "mergelist" and len(r["ps"]) >= 2)
+    need = {"merge": lambda r: r.get("op") == "merge", "mergelist": lambda r: r.get("op") == "mergelist",
+            "empty_list": lambda r: r.get("op") == "mergelist" and len(r["ps"]) == 0,
+            "result_empty_complement": lambda r: r.get("op") == "merge" and r["m"]["empty_comp"]}
+    w = workers(run)
+    run.validate("part_merges", os.path.join(out, "part_merges.ndjson"), "Trace_Partitions", "Trace_Partitions.cfg",
+                 ["C12:", "merge_partition"], workers=w, nontrivial=nt, need=need, timeout=3000)
+    run.validate("part_random_merges", os.path.join(out2, "part_random_merges.ndjson"), "Trace_Partitions",
+                 "Trace_Partitions.cfg", ["C12:", "merge_partition"], workers=w, nontrivial=nt, timeout=1500)
+    run.exhaustive = run.tier == "thorough"
 
 
 # ------------------------------------------------------------------------------------ regex family
